@@ -20,7 +20,7 @@ from props.C02 import cfg_expr, ol
 from props.C14 import A3
 
 STATIC = ["Model/BHPop.vo"]
-EXTRA_PROPS = ["C19b"]
+EXTRA_PROPS = ["C19b", "C19c"]
 IMPORTS = "From SSP Require Import Model.Pk Model.Lifetime Model.Bins Model.Sev Model.BHPop."
 
 
